@@ -130,6 +130,11 @@ def run_task(task):
         C["inadmissible_roots"] = 1
         res["digest"] = dg.add("inadmissible").hex()
         return res
+    except Exception as ex:      # any other exception type at construction of the root is C20's business; counted here
+        C["root_construct_exceptions"] = 1
+        C["cexc:%s:%s" % (f["name"], type(ex).__name__)] = 1
+        res["digest"] = dg.add("cexc", type(ex).__name__).hex()
+        return res
     try:
         pts, classes, njump, ncall = D.root_points(f, cfg, t, s0)
         root = call(s0, pts, t)
@@ -156,6 +161,21 @@ def run_task(task):
         rho, p = rootv["density"], rootv["pressure"]
         ref = {"rho": float(np.min(rho[rho > 0])), "p": float(np.min(p[p > 0])),
                "c": float(math.sqrt(np.min(p[p > 0]) / np.max(rho)))}
+    # velocity scale: the largest of |u| and the isothermal sound speed sqrt(p/rho) (a symmetric Riemann problem has u = 0 +- noise)
+    vscale = 0.0
+    if "pressure" in rootv and "density" in rootv:
+        with np.errstate(all="ignore"):
+            cs = np.sqrt(np.abs(rootv["pressure"]) / np.abs(rootv["density"]))
+        cs = cs[np.isfinite(cs)]
+        vscale = float(cs.max()) if cs.size else 0.0
+    floor = f.get("floor", FLOOR)
+    extra_where = {}
+    if f.get("abs_xtol"):
+        k0 = D.kwargs_of(f, cfg)
+        if k0["pl"] == k0["pr"] and k0["ul"] == k0["ur"]:
+            extra_where["degenerate"] = "pure-contact"      # no acoustic wave: the star pressure coincides with both initial pressures
+    side = f.get("side")
+    side_root = side(root) if side else None
     nodes, transitions = orbit.bfs(root_node(f), generators(f), task["depth"])
     res["states"], res["transitions"] = len(nodes), transitions
     tol = f["tol"]
@@ -179,10 +199,11 @@ def run_task(task):
             k_ = ("exception", "all", sig)
             if k_ not in seen:
                 seen.add(k_)
-                res["violations"].append({"solver": f["name"], "cfg": cfg, "clause": "scale:exception", "where": {"dims": sig, "pts": "all", "t": t},
+                res["violations"].append({"solver": f["name"], "cfg": cfg, "clause": "scale:exception", "where": dict({"dims": sig, "pts": "all", "t": t}, **extra_where),
                                           "value": 1.0, "tol": 0.0, "detail": {"word": word, "exception": "%s: %s" % (type(ex).__name__, str(ex)[:200])}})
             continue
         res["evals"] += 1
+        flipped = (side(out) != side_root) if side else np.zeros(len(pts), bool)
         for n in names:
             a = np.asarray(out[n], float)
             dg.add(a)
@@ -190,8 +211,12 @@ def run_task(task):
             b = rootv[n] * fac
             fin = np.abs(b[np.isfinite(b)])
             S = float(fin.max()) if fin.size else 1.0
+            if n == "velocity":
+                S = max(S, vscale * fac)
+            if n == "sound_speed":          # c = sqrt(gamma p/rho): compared through c^2 so that rounding noise in p ~ 0 is not sqrt-amplified
+                a, b, S = a * np.abs(a), b * np.abs(b), S * S
             with np.errstate(all="ignore"):
-                m = np.abs(a - b) / (np.maximum(np.abs(a), np.abs(b)) + FLOOR * S + 1e-300)
+                m = np.abs(a - b) / (np.maximum(np.abs(a), np.abs(b)) + floor * S + 1e-300)
             m = np.where(a == b, 0.0, m)
             m = np.where(np.isnan(a) & np.isnan(b), 0.0, m)          # e.g. Sedov vacuum: e, c = 0/0 inside the evacuated region
             m = np.where(np.isnan(m) | (np.isnan(a) ^ np.isnan(b)), 1.0, m)
@@ -205,18 +230,20 @@ def run_task(task):
             clause = "scale:" + n
             tol_used = tol
             if ref is not None:
-                tr = tol + abs_xtol_bound(scale, ref)
-                if not (m > tr).any():
+                with np.errstate(all="ignore"):
+                    excess = np.abs(a - b) - tol * (np.maximum(np.abs(a), np.abs(b)) + floor * S) - abs_xtol_bound(scale, ref) * S
+                if not (np.nan_to_num(excess, nan=1.0)[bad] > 0).any():
                     clause, tol_used = "scale-abs-xtol:" + n, tol     # explained by the absolute root-finder tolerances (recorded finding)
-            for cl in sorted(set(classes[bad])):
-                k_ = (clause, cl, sig)
+            for cl, sel, clz in [(c_, bad & (classes == c_) & ~flipped, clause) for c_ in sorted(set(classes[bad & ~flipped]))] + \
+                               [(c_, bad & (classes == c_) & flipped, "scale-front:" + n) for c_ in sorted(set(classes[bad & flipped]))]:
+                k_ = (clz, cl, sig)
                 if k_ in seen:
                     continue
                 seen.add(k_)
-                idx = np.where(bad & (classes == cl))[0]
+                idx = np.where(sel)[0]
                 i = int(idx[np.argmax(m[idx])])
                 res["violations"].append({
-                    "solver": f["name"], "cfg": cfg, "clause": clause, "where": {"dims": sig, "pts": cl, "t": t},
+                    "solver": f["name"], "cfg": cfg, "clause": clz, "where": dict({"dims": sig, "pts": str(cl), "t": t}, **extra_where),
                     "value": float(m[i]), "tol": tol_used,
                     "detail": {"word": word, "scale": scale, "point": np.atleast_1d(pts[i]).tolist(), "got": float(a[i]), "expected": float(b[i]),
                                "factor": fac, "n_bad_points": int(idx.size), "n_points": int(len(pts))}})
@@ -231,7 +258,7 @@ def run_task(task):
                         continue
                     seen.add(k_)
                     i = int(np.where(neq & (classes == cl))[0][0])
-                    res["violations"].append({"solver": f["name"], "cfg": cfg, "clause": "scale:label:" + n, "where": {"dims": sig, "pts": cl, "t": t},
+                    res["violations"].append({"solver": f["name"], "cfg": cfg, "clause": "scale:label:" + n, "where": {"dims": sig, "pts": str(cl), "t": t},
                                               "value": 1.0, "tol": 0.0,
                                               "detail": {"word": word, "point": float(pts[i]), "got": str(got[i]), "expected": str(lab[i])}})
     res["worst"] = worst
